@@ -209,7 +209,7 @@ func c10ReplyFlat(c *Ctx, rule string, csh, cr *ssa.Function) {
 					continue
 				}
 				n++
-				lo, hi, okB, how := bufLenBounds(args[idx])
+				lo, hi, okB, how := bufLenBounds(p, args[idx])
 				c.Check(okB && lo >= 1 && hi <= 16384+256, rule, "application-data record of the server's flight carries 1 … 16640 bytes", c.at(cs), fmt.Sprintf("body length in [%d, %d] (%s)", lo, hi, how),
 					fmt.Sprintf("the length of the record body is not provably within 1 … 16640 (bounds [%d, %d], decided=%v, %s): for some draw the server sends an empty (or oversized) application-data record, which no TLS stack emits at this point", lo, hi, okB, how))
 			}
